@@ -134,16 +134,19 @@ class DelayedObjects {
     void fulfillAllPromises(const X& val)
     {
         std::lock_guard<std::mutex> lock(promiseLock);
-        for (auto& pr : promiseByInteger) {
-            pr.second.set_value(val);
-            usedPromiseByInteger[pr.first] = std::move(pr.second);
+        // each promise leaves the pending map as soon as it has its value, so
+        // that the two maps stay consistent if copying the value throws
+        for (auto pr = promiseByInteger.begin();
+             pr != promiseByInteger.end();) {
+            pr->second.set_value(val);
+            usedPromiseByInteger[pr->first] = std::move(pr->second);
+            pr = promiseByInteger.erase(pr);
         }
-        for (auto& pr : promiseByString) {
-            pr.second.set_value(val);
-            usedPromiseByString[pr.first] = std::move(pr.second);
+        for (auto pr = promiseByString.begin(); pr != promiseByString.end();) {
+            pr->second.set_value(val);
+            usedPromiseByString[pr->first] = std::move(pr->second);
+            pr = promiseByString.erase(pr);
         }
-        promiseByInteger.clear();
-        promiseByString.clear();
     }
 
     /// create a delayed object with an index
